@@ -231,6 +231,15 @@ theorem tags_round_trip (g : Graph) (tg : Nat → Tags) (root : Nat)
     jobTags g tg root = .ok (collectTags g tg root) :=
   decTags_encTags _ (collectTags_scalar g tg root h)
 
+/-- **… and a tag set on the task itself is what the task code observes for that key**, whatever the configurations
+    below it (sub-configurations, pre-tasks, init tasks, producing tasks) are tagged with: `tags()` completes the root
+    last, and `dict.update` lets the last value win. -/
+theorem tags_own_win (g : Graph) (tg : Nat → Tags) (root : Nat) (hwf : WF g) (hr : root < g.size)
+    (hs : ∀ n, ∀ x ∈ tg n, isScalar x.2 = true) (hnd : ((tg root).map (·.1)).Nodup)
+    (k : List Nat) (v : Val) (h : (k, v) ∈ tg root) :
+    ∃ t, jobTags g tg root = .ok t ∧ getTag t k = some v :=
+  ⟨_, tags_round_trip g tg root hs, collectTags_own g tg root hwf hr hnd k v h⟩
+
 /-! ### the hypotheses are needed: kernel-checked witnesses of the findings -/
 
 def lw : Cls := { name := [76], typeId := [108], args := [{ name := [118], value := .none }] }
